@@ -106,12 +106,19 @@ fn gen(_prop: &str, rng: &mut Rng, n: u64, tier: &str) -> Vec<T> {
     for k in 0..n_host {
         cases.push(hostgen::gen_case(rng, k % 3 == 0));
     }
-    // differential histories, spread over the list so that parallel shards share them
+    // differential histories: groups of 20 spread over the list (one process compiles the wasm
+    // module once for its group; thorough runs use several shards in parallel)
     let max_blocks = if thorough { 5 } else { 3 };
-    let stride = (cases.len() as u64 / n.max(1)).max(1) as usize;
-    let mut pos = cases.len();
+    let mut hist = vec![];
     for k in 0..n {
-        let flags = match k % 10 {
+        // every 14th history runs over a view with one failing read (known class
+        // K-C07-storage-error-masked)
+        let flags = if k % 14 == 13 {
+            world::F_FAULT | if k % 28 == 27 { world::F_RELAYER } else { 0 }
+        } else {
+            0
+        };
+        let flags = flags | match k % 10 {
             0 | 1 => 0,
             2 => world::F_TINYGAS,
             3 => world::F_BADRECIPIENT,
@@ -121,15 +128,21 @@ fn gen(_prop: &str, rng: &mut Rng, n: u64, tier: &str) -> Vec<T> {
             7 | 8 => world::F_RELAYER,
             _ => world::F_RELAYER | world::F_TINYGAS,
         };
-        let c = T::l(vec![
+        hist.push(T::l(vec![
             T::n(5u8),
             T::n(rng.next() >> 16),
             T::n(rng.range(1, max_blocks)),
             T::n(rng.range(2, if thorough { 10 } else { 7 })),
             T::n(flags),
-        ]);
-        pos = pos.saturating_sub(stride);
-        cases.insert(pos.min(cases.len()), c);
+        ]));
+    }
+    let groups: Vec<Vec<T>> = hist.chunks(20).map(|c| c.to_vec()).collect();
+    let stride = cases.len() / (groups.len() + 1);
+    for (g, group) in groups.into_iter().enumerate().rev() {
+        let pos = ((g + 1) * stride).min(cases.len());
+        for (j, c) in group.into_iter().enumerate() {
+            cases.insert(pos + j, c);
+        }
     }
     cases
 }
